@@ -17,6 +17,7 @@ strax = common.import_strax()
 from vf.checks.meta import META  # noqa: E402
 from vf.harness import run as hrun  # noqa: E402
 from vf.mon import chunklaws as cl, storagemd  # noqa: E402
+from vf.sched import coop, shims  # noqa: E402
 
 PROPERTY = "C03"
 LEVEL = "exploration"
@@ -32,7 +33,8 @@ ASSUMPTIONS = [
     "chunk sequences obey the laws of chunking; rechunking may only merge chunks or cut in row-free gaps",
 ]
 REQUIRED = {"round_trips": 1500, "rechunked_round_trips": 500, "pool_saves": 300, "pool_loads": 300,
-            "metadata_checks": 1500, "rows_compared": 3000}
+            "metadata_checks": 1500, "rows_compared": 3000, "scheduled_pool_saves": 600, "scheduling_points": 20000,
+            "distinct_pool_schedules": 200}
 UNIT_TIMEOUT = 1200
 COMPRESSORS = ("blosc", "zstd", "lz4", "bz2")
 
@@ -155,16 +157,125 @@ def round_trip(case, comp, rechunk, save_pool, load_pool):
         hrun.rm(d)
 
 
+def verify_stored(d, key, a, chunks, rechunk, executor=None):
+    """What a reader finds afterwards: rows, range, boundaries, chunk laws, metadata vs files."""
+    errs = []
+    sfe = strax.DataDirectory(d)
+    got = [c.result() if isinstance(c, Future) else c for c in sfe.loader(key, executor=executor)]
+    g = np.concatenate([c.data for c in got]) if got else a[:0]
+    if not (g.dtype == a.dtype and len(g) == len(a) and g.tobytes() == a.tobytes()):
+        errs.append(("rows", f"loaded rows differ: {len(g)} rows vs {len(a)} written"))
+    if not got:
+        errs.append(("range", "nothing loaded"))
+        return errs
+    if got[0].start != chunks[0].start or got[-1].end != chunks[-1].end:
+        errs.append(("range", f"loaded range [{got[0].start},{got[-1].end}) != written [{chunks[0].start},{chunks[-1].end})"))
+    if any(x.end != y.start for x, y in zip(got[:-1], got[1:])):
+        errs.append(("contiguity", "loaded chunks not contiguous"))
+    wb = [c.start for c in chunks] + [chunks[-1].end]
+    lb = [c.start for c in got] + [got[-1].end]
+    if not rechunk and lb != wb:
+        errs.append(("boundaries", f"boundaries changed without rechunking: {lb} vs {wb}"))
+    dirname = os.path.join(d, str(key))
+    for e in storagemd.metadata_errors(dirname, got, run_id="0"):
+        errs.append(("metadata", e))
+    left = [x for x in os.listdir(d) if x.endswith("_temp")] + [x for x in os.listdir(dirname) if x.endswith("_temp")]
+    if left:
+        errs.append(("metadata", f"temporary files left behind: {left[:4]}"))
+    return errs
+
+
+def sched_trip(case, comp, rechunk, workers, mode, sseed):
+    """save_from through a worker pool whose threads are scheduled adversarially (cooperative scheduler:
+    the order in which queued chunk writes start and finish relative to the saver is the chooser's)."""
+    dt, a, chunks = build(case)
+    d = hrun.mktemp("c03s-")
+    out = {"errs": [], "exc": None, "steps": 0, "sig": None, "n": len(a)}
+    try:
+        sfe = strax.DataDirectory(d)
+        key = strax.DataKey("0", "dd", {"dd": ("P", "0", {})})
+        md = dict(run_id="0", data_type="dd", data_kind="dd", dtype=np.dtype(dt), compressor=comp,
+                  lineage=key.lineage, chunk_target_size_mb=chunks[0].target_size_mb)
+        chooser = coop.RandomChooser(sseed) if mode == "random" else coop.PCTChooser(sseed, depth=3, horizon=120)
+        sched = coop.Sched(chooser=chooser, max_steps=50000)
+        with shims.coop_pipeline(sched):
+            sched.register_main()
+            pool = coop.Executor(workers)
+            try:
+                with common.quiet():
+                    saver = sfe.saver(key, md)
+                    saver.save_from((c for c in chunks), rechunk=rechunk, executor=pool)
+                    # like ThreadPoolExecutor.shutdown(wait=True): writes that nobody waited for finish now
+                    pool.shutdown(wait=True)
+            except coop.Deadlock as e:
+                out["errs"].append(("deadlock", str(e)[:300]))
+                return out
+            except (coop.Abort,):
+                raise
+            except Exception as e:  # noqa: BLE001
+                out["exc"] = e
+                return out
+            finally:
+                out["steps"] = sched.steps
+                out["sig"] = sched.signature()
+        try:
+            with common.quiet():
+                out["errs"].extend(verify_stored(d, key, a, chunks, rechunk))
+        except Exception as e:  # noqa: BLE001
+            out["exc"] = e
+        return out
+    finally:
+        hrun.rm(d)
+
+
 def units(tier, seed):
     q = tier == "quick"
     n = 16 if q else 64
     per = 6 if q else 40
-    return [{"name": f"trips-{k}", "seed": seed, "lo": k * per, "hi": (k + 1) * per} for k in range(n)]
+    us = [{"name": f"trips-{k}", "fam": "trips", "seed": seed, "lo": k * per, "hi": (k + 1) * per} for k in range(n)]
+    ns = 16 if q else 48
+    pers = 6 if q else 60
+    us += [{"name": f"sched-{k}", "fam": "sched", "seed": seed, "lo": 10 ** 6 + k * pers, "hi": 10 ** 6 + (k + 1) * pers,
+            "reps": 3 if q else 6} for k in range(ns)]
+    return us
 
 
 def run_unit(u):
     res = {"evaluations": 0, "hashes": [], "counters": {}, "samples": [], "violations": [], "inconclusive": []}
     cnt = res["counters"]
+    if u.get("fam") == "sched":
+        sigs = set()
+        for idx in range(u["lo"], u["hi"]):
+            case = gen_case(u["seed"], idx)
+            ch = common.chash(case)
+            rng = random.Random(f"{u['seed']}:c03s:{idx}")
+            for rechunk in (False, True):
+                for workers in (1, 2, 3):
+                    for rep in range(u["reps"]):
+                        combo = {"compressor": rng.choice(COMPRESSORS), "rechunk": rechunk, "workers": workers,
+                                 "mode": rng.choice(["random", "random", "pct"]), "sseed": rng.randint(0, 10 ** 6)}
+                        o = sched_trip(case, combo["compressor"], rechunk, workers, combo["mode"], combo["sseed"])
+                        res["evaluations"] += 1
+                        cnt["scheduled_pool_saves"] = cnt.get("scheduled_pool_saves", 0) + 1
+                        cnt["scheduling_points"] = cnt.get("scheduling_points", 0) + o["steps"]
+                        cnt["metadata_checks"] = cnt.get("metadata_checks", 0) + 1
+                        if o["sig"] not in sigs:
+                            sigs.add(o["sig"])
+                            cnt["distinct_pool_schedules"] = cnt.get("distinct_pool_schedules", 0) + 1
+                        if o["n"]:
+                            res["hashes"].append(common.chash([ch, combo, o["sig"]]))
+                        if o["exc"] is not None and len(res["violations"]) < 20:
+                            sig = {"kind": "exception", "rechunk": rechunk, "save_pool": "scheduled"}
+                            sig.update(common.exc_sig(o["exc"]))
+                            res["violations"].append({"sig": sig, "what": f"scheduled pool save / reload failed: {o['exc']!r}"[:500],
+                                                      "case": dict(case, sched_combo=combo)})
+                        for kind, e in o["errs"][:2]:
+                            if len(res["violations"]) < 20:
+                                res["violations"].append({"sig": {"kind": kind, "rechunk": rechunk, "save_pool": "scheduled"},
+                                                          "what": f"{kind}: {e}", "case": dict(case, sched_combo=combo)})
+            if not res["samples"]:
+                res["samples"].append(dict(case, combos="rechunk x workers 1..3 x seeded random / PCT schedules of the pool"))
+        return res
     for idx in range(u["lo"], u["hi"]):
         case = gen_case(u["seed"], idx)
         ch = common.chash(case)
@@ -200,6 +311,18 @@ def run_unit(u):
 
 
 def replay(case):
+    if "sched_combo" in case:
+        c = case["sched_combo"]
+        base = {k: v for k, v in case.items() if k != "sched_combo"}
+        o = sched_trip(base, c["compressor"], c["rechunk"], c["workers"], c["mode"], c["sseed"])
+        out = []
+        if o["exc"] is not None:
+            sig = {"kind": "exception"}
+            sig.update(common.exc_sig(o["exc"]))
+            out.append({"sig": sig, "what": repr(o["exc"]), "case": case})
+        for kind, e in o["errs"]:
+            out.append({"sig": {"kind": kind}, "what": e, "case": case})
+        return out
     c = case["combo"]
     base = {k: v for k, v in case.items() if k != "combo"}
     errs, exc, n = round_trip(base, c["compressor"], c["rechunk"], c["save_pool"], c["load_pool"])
@@ -218,6 +341,7 @@ def _exercise():
         case = gen_case(4242, i)
         for comp in COMPRESSORS:
             round_trip(case, comp, True, False, False)
+        sched_trip(case, "blosc", True, 2, "random", i)
 
 
 def warm():
